@@ -607,6 +607,15 @@ func (m *Manager) acquireTasks(envId uid.ID, taskDescriptors Descriptors) (err e
 			log.WithField("partition", envId).
 				WithField("level", infologger.IL_Devel).
 				Errorf("Deployment failed %d/%d attempts. Check messages in IL to figure out why. Retrying...", attemptCount+1, MAX_ATTEMPTS_PER_DEPLOY_REQUEST)
+			if attemptCount+1 < MAX_ATTEMPTS_PER_DEPLOY_REQUEST {
+				// the next attempt starts from scratch: what this one did launch must not be forgotten, it goes to
+				// the roster unlocked and falls to the next cleanup
+				for taskPtr := range deployedTasks {
+					taskPtr.SetParent(nil)
+					m.roster.append(taskPtr)
+					verifhook.Point("task.roster.appended", "task", taskPtr.taskId)
+				}
+			}
 			verifhook.Point("task.acquire.retry", "env", envId.String(), "attempt", attemptCount+1, "deployed", len(deployedTasks))
 			time.Sleep(time.Second * SLEEP_LENGTH_BETWEEN_PER_DEPLOY_REQUESTS)
 		}
